@@ -26,27 +26,30 @@ var fixtureSpecs = [numFixtures]struct {
 	idx   [poolSize]string
 	order [poolSize]int
 	names [poolSize]string
+	// noStop: the pool plugin does not subscribe to StopContainer (stop requests skip it)
+	noStop [poolSize]bool
 }{
 	// fixture 0: all indices share their first digit (code that compares plugins by a prefix
 	// of "<index>-<name>" shows here for every pair)
-	{[poolSize]string{"10", "11", "12", "13", "14"}, [poolSize]int{0, 1, 2, 3, 4}, baseNames},
-	{[poolSize]string{"10", "20", "30", "40", "50"}, [poolSize]int{4, 3, 2, 1, 0}, baseNames},
-	{[poolSize]string{"05", "06", "50", "98", "99"}, [poolSize]int{2, 0, 4, 1, 3}, baseNames},
+	{[poolSize]string{"10", "11", "12", "13", "14"}, [poolSize]int{0, 1, 2, 3, 4}, baseNames, [poolSize]bool{}},
+	{[poolSize]string{"10", "20", "30", "40", "50"}, [poolSize]int{4, 3, 2, 1, 0}, baseNames, [poolSize]bool{}},
+	{[poolSize]string{"05", "06", "50", "98", "99"}, [poolSize]int{2, 0, 4, 1, 3}, baseNames, [poolSize]bool{false, false, true, false, false}},
 	// twins: pool plugins 1 and 2 (and 3 and 4) register under the same index AND name (two
 	// instances of one plugin binary). They are still two different plugins. Equal indices
 	// leave their relative order to the implementation; the fixture observes it once (see
 	// getFixture) and is only used if it is the registration order.
-	{[poolSize]string{"10", "20", "20", "30", "30"}, [poolSize]int{0, 1, 2, 3, 4}, [poolSize]string{"e", "twin", "twin", "pair", "pair"}},
+	{[poolSize]string{"10", "20", "20", "30", "30"}, [poolSize]int{0, 1, 2, 3, 4}, [poolSize]string{"e", "twin", "twin", "pair", "pair"}, [poolSize]bool{}},
 }
 
 var baseNames = [poolSize]string{"e", "d", "c", "b", "a"}
 
 // execution is one in-flight request of a case.
 type execution struct {
-	c   Case
-	id  ids
-	pod *api.PodSandbox
-	sub *api.Container // the container as submitted by the runtime (pristine copy)
+	fixture int // the fixture the request actually ran on
+	c       Case
+	id      ids
+	pod     *api.PodSandbox
+	sub     *api.Container // the container as submitted by the runtime (pristine copy)
 
 	mu       sync.Mutex
 	seenCtr  map[int]*api.Container      // pool index -> container shown
@@ -94,8 +97,21 @@ func dropFixture(n int, f *fixture) {
 	}()
 }
 
-// degraded reports whether a successful request failed to reach every pool plugin (each
-// request is relayed to all five; inactive ones answer with an empty response).
+// subscribers is the number of pool plugins of a fixture that receive requests of a kind.
+func subscribers(fixture int, kind string) int {
+	n := poolSize
+	if kind == "stop" {
+		for _, b := range fixtureSpecs[fixture].noStop {
+			if b {
+				n--
+			}
+		}
+	}
+	return n
+}
+
+// degraded reports whether a successful request failed to reach every subscribed pool plugin
+// (each request is relayed to all of them; inactive ones answer with an empty response).
 func (ex *execution) degraded() bool {
 	if ex.err != nil {
 		return false
@@ -104,7 +120,7 @@ func (ex *execution) degraded() bool {
 	for _, pi := range ex.invoked {
 		seen[pi] = true
 	}
-	return len(seen) != poolSize
+	return len(seen) != subscribers(ex.fixture, ex.c.Kind)
 }
 
 func getFixture(n int) (*fixture, error) {
@@ -123,6 +139,11 @@ func getFixture(n int) (*fixture, error) {
 	for _, pi := range spec.order {
 		pi := pi
 		p := &fx.Plugin{Name: spec.names[pi], Idx: spec.idx[pi]}
+		if spec.noStop[pi] {
+			m := api.ValidEvents
+			m.Clear(api.Event_STOP_CONTAINER)
+			p.Mask = m
+		}
 		p.OnEvent = func(_ context.Context, _ api.Event, pod *api.PodSandbox, _ *api.Container) error {
 			if fx.IsProbe(pod) {
 				w.Seen(fmt.Sprintf("pool%d", pi))
@@ -159,10 +180,12 @@ func getFixture(n int) (*fixture, error) {
 		f.plugins[pi] = p
 	}
 	// observe the invocation order once: the engine's model assumes chain order == pool order
-	ex := &execution{c: Case{Kind: "stop"}, id: ids{self: fmt.Sprintf("order-probe-%d", n), tgt: map[string]string{}},
+	ex := &execution{fixture: n, c: Case{Kind: "create"}, id: ids{self: fmt.Sprintf("order-probe-%d", n), tgt: map[string]string{}},
 		seenCtr: map[int]*api.Container{}, seenRes: map[int]*api.LinuxResources{}, seenPod: map[int]*api.PodSandbox{}}
 	f.execs.Store(ex.id.self, ex)
-	_, err = rt.A.StopContainer(context.Background(), &api.StopContainerRequest{Pod: &api.PodSandbox{Id: "p"}, Container: &api.Container{Id: ex.id.self}})
+	// (a creation request: every plugin subscribes to it, and plugins are necessarily asked one
+	// after the other because each is shown what the earlier ones did)
+	_, err = rt.A.CreateContainer(context.Background(), &api.CreateContainerRequest{Pod: &api.PodSandbox{Id: "p"}, Container: &api.Container{Id: ex.id.self}})
 	f.execs.Delete(ex.id.self)
 	if err != nil || fmt.Sprint(ex.invoked) != "[0 1 2 3 4]" {
 		fixtureOrderBad[n] = true
@@ -195,6 +218,9 @@ func (f *fixture) lookup(id string, pi int, pod *api.PodSandbox, ct *api.Contain
 	ex.mu.Unlock()
 	for i := range ex.c.Chain {
 		if ex.c.Chain[i].Plugin == pi {
+			if d := ex.c.Chain[i].DelayMs; d > 0 {
+				time.Sleep(time.Duration(d) * time.Millisecond) // a slow handler
+			}
 			return ex, &ex.c.Chain[i]
 		}
 	}
@@ -246,7 +272,7 @@ func execute(c Case) ([]*execution, error) {
 	for k := 0; k < par; k++ {
 		c := cases[k]
 		n := idCtr.Add(1)
-		ex := &execution{c: c,
+		ex := &execution{c: c, fixture: c.Fixture,
 			id: ids{self: fmt.Sprintf("c%d", n), tgt: map[string]string{
 				"T1": fmt.Sprintf("t1-%d", n), "T2": fmt.Sprintf("t2-%d", n), "T3": fmt.Sprintf("t3-%d", n), "T0": ""}},
 			seenCtr: map[int]*api.Container{}, seenRes: map[int]*api.LinuxResources{}, seenPod: map[int]*api.PodSandbox{},
